@@ -115,8 +115,9 @@ Proof.
       + cbn. lia.
       + destruct Hi1 as [A [B C]]. cbn in *. unfold inv; cbn. lia. }
   destruct s as [t wt wk ex fi ca pa]. destruct Hi as [A [B C]]. cbn in A, B, C.
-  destruct o as [e|e| | |]; cbn [op_labels run step waiting working tokens exiting] in *.
+  destruct o as [e|e|e| | |]; cbn [op_labels run step waiting working tokens exiting] in *.
   - apply Hadm. unfold inv; cbn; lia.
+  - rewrite Hd. apply Hadm. unfold inv; cbn; lia.
   - destruct wt as [|w]; [lia|]. rewrite Hd. apply Hadm. unfold inv; cbn; lia.
   - apply Hadm. unfold inv; cbn; lia.
   - destruct wk as [|w]; [lia|]. cbn. destruct t as [|t]; [lia|]. cbn. apply Hadm. unfold inv; cbn; lia.
